@@ -55,7 +55,7 @@ def work(item):
         out['error'] = type(e).__name__
         return out
     try:
-        out['nw'] = nwchem_cases(b, rng) + nwchem_ecp_cases(b, rng)
+        out['nw'] = nwchem_cases(b, rng) + nwchem_ecp_cases(b, rng) + g94_cases(b, rng)
     except Exception as e:
         out['nw'] = [('harness-error', None, '%s: %s' % (type(e).__name__, e))]
     fmts = sorted(set(writers.get_writer_formats()) & set(readers.get_reader_formats()))
@@ -342,6 +342,113 @@ def nwchem_ecp_cases(b, rng):
         cases.append(('ecp-read:' + kind, dict(op='nwchem_ecp_read', lines=[nw_tok(l, True) for l in m]), nw_real_read_ecp(m)))
     return cases
 
+
+# ---------------------------------------------------------------------------------------------------------
+# Gaussian94 electron blocks at the token level (Props/C03 g94_electron_roundtrip): Lean writer / reader models against
+# writers/g94.py and readers/g94.py:_parse_electron_lines on the same lines
+# ---------------------------------------------------------------------------------------------------------
+def g94_tok(line, replace_d):
+    from basis_set_exchange.readers import helpers
+    if line == '****':
+        return {'s': True}
+    if line[0].isalpha():
+        return {'h': line.split()}
+    return {'r': (helpers.replace_d(line) if replace_d else line).split()}
+
+
+def g94_real_read(block):
+    from basis_set_exchange.readers import g94 as rg
+    bs = {}
+    try:
+        rg._parse_electron_lines(list(block), bs)
+    except Exception as e:
+        return ('err', type(e).__name__)
+    (z, el), = bs.items()
+    return ('ok', [int(z), [dict(ftype=sh['function_type'], am=sh['angular_momentum'], exps=sh['exponents'], coefs=sh['coefficients']) for sh in el['electron_shells']]])
+
+
+def g94_mutations(block, rng):
+    out = []
+    n = len(block)
+    for kind in ('drop_line', 'swap', 'no_stars', 'stars_inside', 'nprim_wrong', 'scale_two', 'scale_zero_one', 'two_scales', 'bad_am', 'explicit_L', 'garbage_token',
+                 'short_row', 'lower', 'extra_column', 'bad_sym', 'head_two_tokens'):
+        m = list(block)
+        try:
+            heads = [i for i, l in enumerate(m) if l[0].isalpha() and i > 0]
+            rows = [i for i, l in enumerate(m) if not l[0].isalpha() and l != '****']
+            if kind == 'drop_line':
+                del m[rng.randrange(n)]
+            elif kind == 'swap':
+                i, j = rng.randrange(n), rng.randrange(n); m[i], m[j] = m[j], m[i]
+            elif kind == 'no_stars':
+                m = [l for l in m if l != '****']
+            elif kind == 'stars_inside':
+                m.insert(rng.choice(rows), '****')
+            elif kind == 'nprim_wrong':
+                i = rng.choice(heads); t = m[i].split(); t[1] = str(int(t[1]) + rng.choice([-1, 1, 3])); m[i] = '   '.join(t)
+            elif kind == 'scale_two':
+                i = rng.choice(heads); t = m[i].split(); t[2] = rng.choice(['2.00', '-1.00', '1.0D+00', '0.5']); m[i] = '   '.join(t)
+            elif kind == 'scale_zero_one':
+                i = rng.choice(heads); m[i] = m[i] + '   0.00'
+            elif kind == 'two_scales':
+                i = rng.choice(heads); m[i] = m[i] + '   1.00'
+            elif kind == 'bad_am':
+                i = rng.choice(heads); t = m[i].split(); t[0] = rng.choice(['Q', 'SPX', 'K', 'sp', 'S1', 'J']); m[i] = '   '.join(t)
+            elif kind == 'explicit_L':
+                i = rng.choice(heads); t = m[i].split(); t[0] = rng.choice(['L=7', 'L=2', 'L=x', 'L=']); m[i] = '   '.join(t)
+            elif kind == 'garbage_token':
+                i = rng.choice(rows); t = m[i].split(); t[rng.randrange(len(t))] = rng.choice(['abc', '1.0.0', '12', '1e5', '.', '-.5D-3', '+1.']); m[i] = ' '.join(t)
+            elif kind == 'short_row':
+                i = rng.choice(rows); t = m[i].split(); m[i] = ' '.join(t[:-1]) if len(t) > 1 else m[i]
+            elif kind == 'lower':
+                m = [l.lower() for l in m]
+            elif kind == 'extra_column':
+                i0 = rng.choice(heads); k = i0 + 1
+                while k < len(m) and not m[k][0].isalpha() and m[k] != '****':
+                    m[k] = m[k] + '   1.0'; k += 1
+            elif kind == 'bad_sym':
+                t = m[0].split(); t[0] = rng.choice(['Xx', 'H1', 'Qq', '1.0']); m[0] = '     '.join(t)
+            elif kind == 'head_two_tokens':
+                i = rng.choice(heads); m[i] = ' '.join(m[i].split()[:2])
+        except (IndexError, ValueError):
+            continue
+        m = [l for l in m if l.strip()]
+        if m:
+            out.append((kind, m))
+    return out
+
+
+def g94_cases(b, rng):
+    from basis_set_exchange import writers, manip, sort
+    from basis_set_exchange.readers import helpers, g94 as rg
+    if not any('electron_shells' in el for el in b['elements'].values()):
+        return []
+    try:
+        text = writers.write_formatted_basis_str(b, 'gaussian94')
+    except Exception:
+        return []
+    lines = helpers.prune_lines(text.splitlines(), '!')
+    try:
+        sections = helpers.partition_lines(lines, rg.element_re.match, min_size=3)
+    except Exception:
+        return []
+    blocks = [es for es in sections if not (len(es) > 3 and helpers.is_integer(es[3]))]
+    pb = sort.sort_basis(manip.uncontract_spdf(manip.uncontract_general(b, True), 1, False), False)
+    els = [(z, el) for z, el in pb['elements'].items() if 'electron_shells' in el]
+    if len(blocks) != len(els):
+        return [('g94-harness-error', None, 'blocks %d vs elements %d' % (len(blocks), len(els)))]
+    cases = []
+    pick = rng.sample(range(len(blocks)), min(3, len(blocks)))
+    conv = lambda x: x.strip().replace('e', 'D').replace('E', 'D')
+    for k in pick:
+        block, (z, el) = blocks[k], els[k]
+        shells = [dict(am=sh['angular_momentum'], exps=[conv(x) for x in sh['exponents']], coefs=[[conv(x) for x in c] for c in sh['coefficients']]) for sh in el['electron_shells']]
+        cases.append(('g94-write', dict(op='g94_write', z=int(z), shells=shells), [g94_tok(l, False) for l in block]))
+        cases.append(('g94-read', dict(op='g94_read', lines=[g94_tok(l, True) for l in block]), g94_real_read(block)))
+        for kind, m in g94_mutations(block, rng):
+            cases.append(('g94-read:' + kind, dict(op='g94_read', lines=[g94_tok(l, True) for l in m]), g94_real_read(m)))
+    return cases
+
 def run(ctx):
     bse = import_bse()
     R = Result('C03')
@@ -393,7 +500,7 @@ def run(ctx):
             if 'drv_error' in a:
                 raise DriverError(a['drv_error'])
             R.ev()
-            if what in ('write', 'ecp-write'):
+            if what in ('write', 'ecp-write', 'g94-write'):
                 R.count('nwchem-model:' + what)
                 if a['lines'] != exp:
                     k = next((i for i, (x, y) in enumerate(zip(a['lines'], exp)) if x != y), min(len(a['lines']), len(exp)))
@@ -402,6 +509,9 @@ def run(ctx):
                 nread += 1
                 R.count('nwchem-model:%s:%s' % (what, exp[0]))
                 got = ('ok', a['ok']) if 'ok' in a else ('err', a['raise'])
+                if got == ('err', 'UNMODELLED'):
+                    R.count('g94-model:scaled-exponents-not-modelled')
+                    continue
                 if what.startswith('ecp') and got[0] == 'ok':
                     got = ('ok', [[z, n, [dict(p, rexp=[int(x) for x in p['rexp']]) for p in ps]] for z, n, ps in got[1]])
                 if got[0] != exp[0] or (got[0] == 'ok' and got[1] != exp[1]):
